@@ -14,7 +14,7 @@ theorem goodMk_LSf (v : Nat) (p : Pat) (it : Expr) (b : List Stmt)
     (hcb : findFor Code.fn_ShmReader__snapshot_stmts = some (p, it, b)) : GoodMk (LSf v) := by
   first
   | (exfalso; simp [findFor] at hcb; done)
-  | (intro k g1 cg cache lg pos; simp [LSf, LSg, probeEnv, loopPrefix, probeInp, relabel, rs_eval, rs_code, rawInp, readerValue, wordsValue, envGet])
+  | (intro k g1 cg cache lg pos; simp [LSf, LSg, probeEnv, probeSt, loopPrefix, probeInp, relabel, rs_eval, rs_code, rawInp, readerValue, wordsValue, envGet])
 
 set_option maxRecDepth 8000 in
 set_option maxHeartbeats 2000000 in
@@ -28,18 +28,20 @@ theorem iter_for (inp : Nat → Nat) (nowNs : Int) (sizes : List (String × Nat)
     = if g1 = typedInp inp (pos + SL.N) then
         .ret (.enumv "Ok" [wordsValue (SL.attemptCells (typedInp inp) pos)])
           (LSf v k g1 g1 (SL.attemptCells (typedInp inp) pos)
-            (lg ++ (SL.attemptAccs {} (typedInp inp) pos).map accValue) (pos + SL.N + 1))
+            (lg ++ (SL.attemptAccs snapAnn (typedInp inp) pos).map accValue) (pos + SL.N + 1))
       else
         next (LSf v k (if typedInp inp (pos + SL.N) % 2 = 0 then typedInp inp (pos + SL.N) else g1) cg cache
-          (lg ++ (SL.attemptAccs {} (typedInp inp) pos).map accValue) (pos + SL.N + 1)) := by
+          (lg ++ (SL.attemptAccs snapAnn (typedInp inp) pos).map accValue) (pos + SL.N + 1)) := by
   first
   | (exfalso; simp [findFor] at hcb; done)
   | (simp [findFor] at hcb
      obtain ⟨rfl, rfl, rfl⟩ := hcb
      subst hst
      obtain ⟨M, rfl⟩ := Nat.exists_eq_add_of_le' hN
-     simp [rs_eval, rs_code, LSf, LSg, probeEnv, loopPrefix, probeInp, relabel, sfr, rawInp, readerValue, wordsValue, readWords_attempt inp hpos,
-       typedInp_gen2 inp hpos, wordLoads_attempt, SL.attemptAccs, accValue, locValue, locTy, ordValue]
+     eval_bodyLog hbl
+     simp [rs_eval, rs_code, LSf, LSg, probeEnv, probeSt, loopPrefix, probeInp, relabel, sfr, rawInp, readerValue, wordsValue,
+       readWords_attempt inp hpos, typedInp_gen2 inp hpos, wordLoads_attempt, SL.attemptAccs, accValue, locValue, locTy,
+       ordValue, snapAnn, hbl, evOrd, isFenceEv, lastOf, ordOfValue, evLoad, evFence]
      split_ifs <;> simp_all <;> omega)
 
 /-- the `for` over `lo .. lo + k` (a budget of `k` attempts), for every fuel ≥ `k + 31` -/
